@@ -38,9 +38,16 @@ def run(ctx):
             for p in progs:
                 jobs.append(Job(driver, v, p, "seq", 1, 0, 1, group=group))
     rng = ctx.rng
-    add("queue", c06.VARIANTS + c07.MPMC, [seq_lin_program(rng, ["enq"], ["deq", "deq", "empty"], L, "drain") for _ in range(reps)], "queue")
-    add("stack", c09.VARIANTS, [seq_lin_program(rng, ["push"], ["pop", "pop", "empty"], L, "drain") for _ in range(reps)], "stack")
-    add("stack", c10.VARIANTS, [seq_lin_program(rng, ["pushf", "pushb"], ["popf", "popb", "empty"], L, rng.choice(["drainf", "drainb"])) for _ in range(reps)], "deque")
+    # fixed edge sequences: a failed pop on the empty container followed by pushes and pops from either end (per-thread records of the FC containers
+    # keep flags from the previous operation: seeded change C20b), alternating ends, refill after drain
+    EDGE_Q = ["deq,enq:1,deq,deq,enq:2,enq:3,deq,empty,deq,deq,enq:4,empty,deq;drain"]
+    EDGE_S = ["pop,push:1,pop,pop,push:2,push:3,pop,empty,pop,pop,push:4,empty,pop;drain"]
+    EDGE_D = ["popb,pushf:1,popb,popf,pushb:2,popf,popb,popf,pushb:3,pushf:4,popb,popb,popb,empty;drainf",
+              "popf,pushb:1,popf,popb,pushf:2,popb,popf,popb,pushf:3,pushb:4,popf,popf,popf,empty;drainb",
+              "popf,pushf:1,popb,popb,pushb:2,pushb:3,popb,popf,popf,empty;drainf"]
+    add("queue", c06.VARIANTS + c07.MPMC, EDGE_Q + [seq_lin_program(rng, ["enq"], ["deq", "deq", "empty"], L, "drain") for _ in range(reps)], "queue")
+    add("stack", c09.VARIANTS, EDGE_S + [seq_lin_program(rng, ["push"], ["pop", "pop", "empty"], L, "drain") for _ in range(reps)], "stack")
+    add("stack", c10.VARIANTS, EDGE_D + [seq_lin_program(rng, ["pushf", "pushb"], ["popf", "popb", "empty"], L, rng.choice(["drainf", "drainb"])) for _ in range(reps * 2)], "deque")
     pqp = []
     for _ in range(reps):
         ops = []; uid = 0
